@@ -13,16 +13,16 @@ import (
 // freeTextFields: AST/message fields the parser fills from text or string tokens (arbitrary characters),
 // with the deriving site. Identifier-class fields (names, keys of data references) are not listed.
 var freeTextFields = map[string]string{
-	"ast.RawTextNode.Text":        "parse.textOrTag / literal / special chars: raw template text",
-	"ast.StringNode.Value":        "parse.newValueNode: unquoted string literal (also global string values via nodeFromValue)",
-	"ast.StringNode.Quoted":       "parse.newValueNode: the literal as written in Soy syntax (Soy escapes, not JS escapes)",
-	"ast.MapLiteralNode.Items":    "parse.parseMapLiteral: keys are unquoted string literals",
-	"ast.CssNode.Suffix":          "parse.parseCss: text of the {css} command",
-	"ast.MsgHtmlTagNode.Text":     "parse.parseMsgRawText: html tag text inside a message",
-	"soymsg.RawTextPart.Text":     "soymsg.Parts: translated message text from the catalogue",
-	"ast.SoyFileNode.Name":        "parse.SoyFile: file name given by the caller",
-	"ast.MsgNode.Desc":            "parse.parseMsg: description attribute",
-	"ast.MsgNode.Meaning":         "parse.parseMsg: meaning attribute",
+	"ast.RawTextNode.Text":     "parse.textOrTag / literal / special chars: raw template text",
+	"ast.StringNode.Value":     "parse.newValueNode: unquoted string literal (also global string values via nodeFromValue)",
+	"ast.StringNode.Quoted":    "parse.newValueNode: the literal as written in Soy syntax (Soy escapes, not JS escapes)",
+	"ast.MapLiteralNode.Items": "parse.parseMapLiteral: keys are unquoted string literals",
+	"ast.CssNode.Suffix":       "parse.parseCss: text of the {css} command",
+	"ast.MsgHtmlTagNode.Text":  "parse.parseMsgRawText: html tag text inside a message",
+	"soymsg.RawTextPart.Text":  "soymsg.Parts: translated message text from the catalogue",
+	"ast.SoyFileNode.Name":     "parse.SoyFile: file name given by the caller",
+	"ast.MsgNode.Desc":         "parse.parseMsg: description attribute",
+	"ast.MsgNode.Meaning":      "parse.parseMsg: meaning attribute",
 }
 
 var jsSanitizers = map[string]bool{"text/template.JSEscape": true, "text/template.JSEscapeString": true, "html/template.JSEscapeString": true, "strconv.Quote": true, "encoding/json.Marshal": true}
